@@ -56,11 +56,13 @@ def run_scenario(sc):
     fam = sc['fam']
     out = {}
     if fam == 'nests':
-        def go():
+        def go(naming='unnamed'):
             V = {1: ex.Beta('b1', 0.1, None, None, 0), 2: ex.Numeric(0.2), 3: ex.Beta('b3', 0.3, None, None, 0)}
             if sc['kind'] == 'nested':
+                # the validity of a nest structure does not depend on how the nests are named
+                names = {'unnamed': [None, None], 'same-name': ['n', 'n'], 'clash-with-default': ['nest_2', None]}[naming]
                 nests = NestsForNestedLogit(choice_set=[1, 2, 3], tuple_of_nests=tuple(
-                    OneNestForNestedLogit(nest_param=1.5, list_of_alternatives=sorted(n)) for n in sc['nests']))
+                    OneNestForNestedLogit(nest_param=1.5, list_of_alternatives=sorted(n), name=names[j]) for j, n in enumerate(sc['nests'])))
                 e = models.lognested(V, None, nests, 1)
             else:
                 nests = NestsForCrossNestedLogit(choice_set=[1, 2, 3], tuple_of_nests=tuple(
@@ -68,6 +70,9 @@ def run_scenario(sc):
                 e = models.logcnl(V, None, nests, 1)
             return float(e.get_value_c(prepare_ids=True))
         out['models'] = audit.classify(rt.forked(go, timeout=30))
+        if sc['kind'] == 'nested':
+            out['models(same nest name)'] = audit.classify(rt.forked(go, 'same-name', timeout=30))
+            out['models(name clashing with a default one)'] = audit.classify(rt.forked(go, 'clash-with-default', timeout=30))
     elif fam == 'data':
         def go():
             cell = {'num': 1.5, 'nan': float('nan'), 'str': 'abc'}
